@@ -26,6 +26,20 @@ Theorem C09_split_never_empty : forall key, split_names key <> [].
 Proof. exact split_names_nonnil. Qed.
 Print Assumptions C09_split_never_empty.
 
+(* stable addressing: the key spelled from a list of names (escape every '/', join with "/") leads back
+   to exactly those names, stripped.  Guard: no name but the last ends in a backslash -- the path
+   syntax has no escape for a backslash (refuted without it: ["a\\"; "b"]). *)
+Theorem C09_addressable : forall names, names <> [] ->
+  Forall (fun n => ends_with_backslash n = false) (removelast names) ->
+  split_names (path_string names) = map strip names.
+Proof. exact split_path_string. Qed.
+Print Assumptions C09_addressable.
+
+Theorem C09_addressable_guard_needed :
+  split_names (path_string [[97; 92]; [98]]) <> map strip [[97; 92]; [98]].
+Proof. exact split_path_string_refuted. Qed.
+Print Assumptions C09_addressable_guard_needed.
+
 (* ---- add ----------------------------------------------------------------- *)
 (* the section found at p after add is the new one, carrying the old subsections *)
 Theorem C09_add_get : forall p new d, p <> [] ->
